@@ -135,6 +135,24 @@ def planted(kind, mode):
         defvjp(f, lambda ans, x: lambda g: g * dr(x))
         defjvp(f, lambda g, ans, x: g * df(x))
         return f, (lambda rng: onp.array([rng.uniform(0.5, 1.2) for _ in range(3)])), "both"
+    if kind in ("tangent-helper-factor", "tangent-helper-sign", "ok-tangent-helper"):
+        # the rule routes its (co)tangent through a helper primitive whose VALUE is right and whose own derivative is
+        # defective: the first-order derivative is right, and so is its dependence on x - only its dependence on the
+        # (co)tangent is wrong, which an order-2 check must look at too
+        m = {"tangent-helper-factor": 1.25, "tangent-helper-sign": -1.0, "ok-tangent-helper": 1.0}[kind]
+
+        @primitive
+        def helper(t):
+            return t * 1.0
+        defvjp(helper, lambda ans, t: lambda g: g * (m if mode == "rev" else 1.0))
+        defjvp(helper, lambda g, ans, t: g * (m if mode == "fwd" else 1.0))
+
+        @primitive
+        def f(x):
+            return x * 2.0
+        defvjp(f, lambda ans, x: lambda g: helper(g) * 2.0)
+        defjvp(f, lambda g, ans, x: helper(g) * 2.0)
+        return f, (lambda rng: onp.array([rng.uniform(0.5, 1.2) for _ in range(3)])), None
     if kind in ("nan-entry", "nan-scalar"):
         # a rule that returns a non-finite number at a regular point
         @primitive
@@ -204,7 +222,8 @@ def main():
     trials = cfg["trials"]
     for kind in ("ok-scalar", "ok-matrix", "ok-reduction", "ok-complex", "factor", "sign", "transpose", "entry",
                  "dropped-reduction", "complex-conj", "ok-second-order", "second-order-factor", "second-order-sign",
-                 "second-order-zero", "ok-cross-mode", "cross-mode-factor", "cross-mode-sign", "nan-entry", "nan-scalar"):
+                 "second-order-zero", "ok-cross-mode", "cross-mode-factor", "cross-mode-sign", "ok-tangent-helper",
+                 "tangent-helper-factor", "tangent-helper-sign", "nan-entry", "nan-scalar"):
         for mode in ("rev", "fwd"):
             for order in (1, 2):
                 f, point, both = planted(kind, mode)
@@ -226,8 +245,8 @@ def main():
                         break
                 out["oracle_n"] += trials
                 out["oracle_keys"].append("%s/%s/order%d" % (kind, mode, order))
-                dist("%s:%s:order%d" % ("correct" if (kind.startswith("ok") or ((kind.startswith("second-order") or kind.startswith("cross-mode")) and order == 1)) else "defect", "+".join(modes_req), order))
-                correct_here = kind.startswith("ok") or ((kind.startswith("second-order") or kind.startswith("cross-mode")) and order == 1)
+                dist("%s:%s:order%d" % ("correct" if (kind.startswith("ok") or ((kind.startswith("second-order") or kind.startswith("cross-mode") or kind.startswith("tangent-helper")) and order == 1)) else "defect", "+".join(modes_req), order))
+                correct_here = kind.startswith("ok") or ((kind.startswith("second-order") or kind.startswith("cross-mode") or kind.startswith("tangent-helper")) and order == 1)
                 if correct_here and passes < trials:
                     out["oracle_bad"].append({"oracle": "check_grads", "kind": kind, "mode": mode, "order": order,
                                               "what": "a correct rule was rejected in %d of %d runs" % (trials - passes, trials),
